@@ -5,6 +5,9 @@ use quote::ToTokens;
 use std::collections::{BTreeMap, BTreeSet};
 use syn::*;
 
+mod loops;
+pub(crate) use loops::Sort;
+
 type R<T> = std::result::Result<T, String>;
 
 #[derive(Clone, Debug)]
@@ -32,6 +35,8 @@ pub struct Translator {
     chunks: BTreeMap<String, Vec<(u32, String)>>,
     tags: BTreeMap<String, Vec<String>>,
     inventory: Vec<InvItem>,
+    /// inherent / free functions that went through the loop route: (type or namespace, name) → status
+    loop_fns: BTreeMap<(String, String), loops::LoopFn>,
 }
 
 fn fnv(s: &str) -> String {
@@ -58,8 +63,16 @@ fn is_cfg_test(attrs: &[Attribute]) -> bool {
     attrs.iter().any(|a| a.path().is_ident("cfg") && a.meta.to_token_stream().to_string().contains("test"))
 }
 
-const HAND_TYPES: &[&str] = &["Piecewise", "PiecewiseEvaluator", "PolyN"];
-const HAND_FNS: &[&str] = &["linear", "constrained_spline"];
+/// never attempted: hidden state behind lifetimes
+const HAND_TYPES: &[&str] = &["PiecewiseEvaluator"];
+/// types whose impls use loops / iterators / slices: translated through the loop subset
+/// (`emit/loops.rs`) into `<Module>/Loops.lean`
+const LOOP_TYPES: &[&str] = &["Piecewise", "PolyN"];
+/// trait impls of the loop types that stay hand-modelled (index loops with two cursors, `Arbitrary`)
+const HAND_TRAITS: &[&str] = &["Add", "Sub", "Arbitrary"];
+const HAND_FNS: &[&str] = &[];
+/// free functions translated through the loop subset
+const LOOP_FNS: &[&str] = &["linear", "constrained_spline"];
 const SKIPPED_METHODS: &[&str] = &["default_epsilon", "default_max_relative"];
 
 fn base_type_name(ty: &Type) -> String {
@@ -71,32 +84,118 @@ fn base_type_name(ty: &Type) -> String {
     }
 }
 
+struct ImplHeader {
+    tcx: TyCtx,
+    self_lean: String,
+    class_app: String,
+    binders_txt: String,
+}
+
+#[derive(Default)]
+struct Siblings {
+    /// rust method name → standalone def
+    defs: BTreeMap<String, String>,
+    /// Option-valued ones
+    opt: BTreeSet<String>,
+    /// methods whose translation failed
+    bad: BTreeSet<String>,
+}
+
+fn merge_generics(a: &Generics, b: &Generics) -> Generics {
+    if b.params.is_empty() && b.where_clause.is_none() {
+        return a.clone();
+    }
+    let mut g = a.clone();
+    for p in &b.params {
+        g.params.push(p.clone());
+    }
+    if let Some(w) = &b.where_clause {
+        let wc = g.make_where_clause();
+        for p in &w.predicates {
+            wc.predicates.push(p.clone());
+        }
+    }
+    g
+}
+
 #[derive(Clone, Debug)]
 enum PathElem {
     Field(String),
 }
 
+#[derive(Clone)]
 struct BodyCx {
     /// methods of the impl being translated that are already emitted as standalone defs: rust name → lean def
     siblings: BTreeMap<String, String>,
     tcx: TyCtx,
-    scopes: Vec<BTreeSet<String>>,
+    scopes: Vec<BTreeMap<String, Sort>>,
     module: String,
     /// sub-module path inside the file (e.g. ["taylor"])
     submods: Vec<String>,
+    // ---- loop subset (see emit/loops.rs) ----
+    /// siblings whose standalone def is `Option`-valued
+    opt_siblings: BTreeSet<String>,
+    /// lines hoisted out of the expression being translated (`let v := …;` / `Option.bind … fun v =>`)
+    pending: Vec<String>,
+    /// variables rebound by the pending lines of the current statement
+    mutated: Vec<String>,
+    /// number of `Option.bind` lines emitted so far
+    n_binds: usize,
+    /// counter of temporaries `v'1`, `v'2`, …
+    tmp: usize,
+    /// the body being translated is `Option`-valued (`none` = panic)
+    opt_mode: bool,
+    /// closure bodies / match arms being translated: outer variables they may mutate
+    frames: Vec<loops::Frame>,
+    /// variables read so far by the statement being translated
+    reads: Vec<String>,
+    /// `return e` means "the function's result is e" here
+    allow_return: bool,
+    /// sibling methods whose translation failed
+    bad_siblings: BTreeSet<String>,
 }
 
 impl BodyCx {
+    fn new(siblings: BTreeMap<String, String>, tcx: TyCtx, module: &str, submods: &[String]) -> Self {
+        BodyCx {
+            siblings,
+            tcx,
+            scopes: vec![BTreeMap::new()],
+            module: module.to_string(),
+            submods: submods.to_vec(),
+            opt_siblings: BTreeSet::new(),
+            pending: vec![],
+            mutated: vec![],
+            n_binds: 0,
+            tmp: 0,
+            opt_mode: false,
+            frames: vec![],
+            reads: vec![],
+            allow_return: false,
+            bad_siblings: BTreeSet::new(),
+        }
+    }
     fn declare(&mut self, n: &str) {
-        self.scopes.last_mut().unwrap().insert(n.to_string());
+        self.scopes.last_mut().unwrap().insert(n.to_string(), Sort::Other);
+    }
+    fn declare_s(&mut self, n: &str, s: Sort) {
+        self.scopes.last_mut().unwrap().insert(n.to_string(), s);
     }
     fn scope_of(&self, n: &str) -> Option<usize> {
         for (i, s) in self.scopes.iter().enumerate().rev() {
-            if s.contains(n) {
+            if s.contains_key(n) {
                 return Some(i);
             }
         }
         None
+    }
+    fn sort_of_var(&self, n: &str) -> Sort {
+        for s in self.scopes.iter().rev() {
+            if let Some(x) = s.get(n) {
+                return x.clone();
+            }
+        }
+        Sort::Other
     }
 }
 
@@ -112,6 +211,7 @@ impl Translator {
             chunks: BTreeMap::new(),
             tags: BTreeMap::new(),
             inventory: vec![],
+            loop_fns: BTreeMap::new(),
         }
     }
 
@@ -229,13 +329,36 @@ impl Translator {
                         self.record(qual, fname, "hand", "loops / iterator adaptors / assert!".into(), toks, "", "");
                         continue;
                     }
-                    let lean_file = if module == "LogPoly" { "LogPoly/Evaluate".to_string() } else { format!("{module}/Fns") };
                     let mut ns = module.to_string();
                     for s in sub {
                         ns.push('.');
                         ns.push_str(s);
                     }
-                    match self.translate_free_fn(module, sub, &f.sig, &f.block, None) {
+                    if LOOP_FNS.contains(&name.as_str()) {
+                        let lean_file = format!("{module}/Loops");
+                        let ln = format!("{ns}.{}", lean_ident(&name));
+                        let ret = match &f.sig.output {
+                            ReturnType::Type(_, t) => self.sort_of_type(t, &TyCtx::default()),
+                            _ => Sort::Other,
+                        };
+                        let r = self.with_opt_retry(|opt| self.translate_free_fn(module, sub, &f.sig, &f.block, opt));
+                        let mut lf = loops::LoopFn { lean: ln.clone(), ok: false, fallible: false, ret };
+                        match r {
+                            Ok((text, fallible)) => {
+                                let chunk = format!("namespace {ns}\n{text}\nend {ns}\n");
+                                self.push_chunk_ranked(&lean_file, 300, chunk);
+                                self.tags.entry(lean_file.clone()).or_default().push(ln.clone());
+                                self.record(qual, fname, "translated", String::new(), toks, &lean_file, &ln);
+                                lf.ok = true;
+                                lf.fallible = fallible;
+                            }
+                            Err(e) => self.record(qual, fname, "unsupported", e, toks, &lean_file, ""),
+                        }
+                        self.loop_fns.insert((ns.clone(), name.clone()), lf);
+                        continue;
+                    }
+                    let lean_file = if module == "LogPoly" { "LogPoly/Evaluate".to_string() } else { format!("{module}/Fns") };
+                    match self.translate_free_fn(module, sub, &f.sig, &f.block, false) {
                         Ok(text) => {
                             let chunk = format!("namespace {ns}\n{text}\nend {ns}\n");
                             let depth = self.fn_depth(&ns, &name, 0);
@@ -275,7 +398,9 @@ impl Translator {
             }
             None => format!("{fname}::impl {self_m}"),
         };
-        if HAND_TYPES.contains(&base.as_str()) {
+        let is_loop_type = LOOP_TYPES.contains(&base.as_str());
+        let hand_trait = trait_name.as_ref().map(|t| HAND_TRAITS.contains(&t.as_str())).unwrap_or(false);
+        if HAND_TYPES.contains(&base.as_str()) || (is_loop_type && hand_trait) {
             // one inventory line per method so that the hash is per function
             for ii in &im.items {
                 if let ImplItem::Fn(f) = ii {
@@ -295,12 +420,32 @@ impl Translator {
                     let n = f.sig.ident.to_string();
                     let ftoks = f.to_token_stream().to_string();
                     let q = format!("{qual}::{n}");
-                    if base == "Segment" {
-                        self.record(q, fname, "hand", "iterator adaptor with captured mutable state".into(), ftoks, "", "");
+                    if base == "Segment" || is_loop_type {
+                        // iterator adaptors with captured state, slices, …: loop subset
+                        let lean_file = format!("{module}/Loops");
+                        let ln = format!("{base}.{}", lean_ident(&n));
+                        let ret = match &f.sig.output {
+                            ReturnType::Type(_, t) => self.sort_of_type(t, &TyCtx::default()),
+                            _ => Sort::Other,
+                        };
+                        let r = self.with_opt_retry(|opt| self.translate_inherent_fn(module, im, f, opt));
+                        let mut lf = loops::LoopFn { lean: ln.clone(), ok: false, fallible: false, ret };
+                        match r {
+                            Ok((text, fallible)) => {
+                                // functions of the element type are callees of the impls of the loop types
+                                self.push_chunk_ranked(&lean_file, if is_loop_type { 300 } else { 5 }, text);
+                                self.tags.entry(lean_file.clone()).or_default().push(ln.clone());
+                                self.record(q, fname, "translated", String::new(), ftoks, &lean_file, &ln);
+                                lf.ok = true;
+                                lf.fallible = fallible;
+                            }
+                            Err(e) => self.record(q, fname, "unsupported", e, ftoks, &lean_file, ""),
+                        }
+                        self.loop_fns.insert((base.clone(), n.clone()), lf);
                         continue;
                     }
                     let lean_file = format!("{module}/Fns");
-                    match self.translate_inherent_fn(module, im, f) {
+                    match self.translate_inherent_fn(module, im, f, false) {
                         Ok(text) => {
                             self.push_chunk(&lean_file, text);
                             self.tags.entry(lean_file.clone()).or_default().push(format!("{base}.{}", lean_ident(&n)));
@@ -316,6 +461,10 @@ impl Translator {
             self.record(qual, fname, "hand", "Arbitrary".into(), toks, "", "");
             return;
         }
+        if is_loop_type {
+            self.translate_loop_trait_impl(fname, im, sub, &trait_name, &qual);
+            return;
+        }
         let group = match trait_name.as_str() {
             "Evaluate" => "Evaluate",
             "HasDerivative" | "Translate" | "HasIntegral" => "Calculus",
@@ -329,6 +478,7 @@ impl Translator {
             Ok((text, tagged)) => {
                 self.tags.entry(lean_file.clone()).or_default().extend(tagged);
                 let mut rank = match trait_name.as_str() {
+                    // (the same table is in `trait_rank`)
                     "Evaluate" => 10,
                     "Translate" => 20,
                     "HasDerivative" => 30,
@@ -364,8 +514,43 @@ impl Translator {
         let self_idents: BTreeSet<String> =
             self_toks.split(|c: char| !(c.is_alphanumeric() || c == '_')).map(|s| s.to_string()).collect();
         let mut preds: Vec<(Type, Vec<TypeParamBound>)> = vec![];
+        // `I: IntoIterator<Item = X>` (inline or in the where clause): `I` is `List X`, no binder
+        let mut iter_params: Vec<(String, Type)> = vec![];
+        {
+            let mut note = |n: String, bounds: &mut dyn Iterator<Item = &TypeParamBound>| {
+                for b in bounds {
+                    if let TypeParamBound::Trait(tb) = b {
+                        if let Some(item) = loops::iterator_item(tb) {
+                            if !iter_params.iter().any(|(m, _)| *m == n) {
+                                iter_params.push((n.clone(), item));
+                            }
+                        }
+                    }
+                }
+            };
+            for p in &g.params {
+                if let GenericParam::Type(t) = p {
+                    note(t.ident.to_string(), &mut t.bounds.iter());
+                }
+            }
+            if let Some(w) = &g.where_clause {
+                for p in &w.predicates {
+                    if let WherePredicate::Type(pt) = p {
+                        if let Type::Path(tp) = &pt.bounded_ty {
+                            if tp.qself.is_none() {
+                                if let Some(id) = tp.path.get_ident() {
+                                    note(id.to_string(), &mut pt.bounds.iter());
+                                }
+                            }
+                        }
+                    }
+                }
+            }
+        }
+        let is_iter_param = |n: &str| iter_params.iter().any(|(m, _)| m == n);
         for p in &g.params {
             match p {
+                GenericParam::Type(t) if is_iter_param(&t.ident.to_string()) => {}
                 GenericParam::Type(t) => {
                     let n = t.ident.to_string();
                     if self_ty.is_some() && !self_idents.contains(&n) {
@@ -394,9 +579,19 @@ impl Translator {
                 }
             }
         }
+        for (n, item) in &iter_params {
+            let it = ty_to_lean(item, &tcx, &self.structs)?;
+            tcx.generics.insert(n.clone(), format!("(List {it})"));
+        }
         // pass 1: plain parameters; pass 2: projections such as `T::IntegralOf: Translate`
         for pass in 0..2 {
             for (bty, bounds) in &preds {
+                if !bounds.iter().any(|b| matches!(b, TypeParamBound::Trait(_))) {
+                    continue; // lifetime bounds only
+                }
+                if is_iter_param(&bty.to_token_stream().to_string()) {
+                    continue;
+                }
                 let is_plain = matches!(bty, Type::Path(p) if p.qself.is_none() && p.path.segments.len() == 1);
                 if (pass == 0) != is_plain {
                     continue;
@@ -510,7 +705,8 @@ impl Translator {
                 FnArg::Receiver(r) => {
                     let st = cx.tcx.self_ty.clone().ok_or("receiver outside impl")?;
                     binders.push(format!("(self : {st})"));
-                    cx.declare("self");
+                    let ss = cx.tcx.self_struct.clone().map(Sort::Struct).unwrap_or(Sort::Other);
+                    cx.declare_s("self", ss);
                     if r.reference.is_some() && r.mutability.is_some() {
                         self_mut_ref = true;
                     }
@@ -528,17 +724,143 @@ impl Translator {
                         }
                     }
                     binders.push(format!("({} : {ty})", lean_ident(&name)));
-                    cx.declare(&name);
+                    let sort = self.sort_of_type(&pt.ty, &cx.tcx);
+                    cx.declare_s(&name, sort);
                 }
             }
         }
         Ok((binders, self_mut_ref, mut_params))
     }
 
-    fn translate_trait_impl(&self, module: &str, sub: &[String], im: &ItemImpl, trait_name: &str, inst_name: &str) -> R<(String, Vec<String>)> {
+    fn trait_rank(trait_name: &str) -> u32 {
+        match trait_name {
+            "Evaluate" => 10,
+            "Translate" => 20,
+            "HasDerivative" => 30,
+            "Mul" => 40,
+            "MulAssign" => 50,
+            "Neg" => 60,
+            "Add" => 70,
+            "Sub" => 80,
+            "Default" => 90,
+            "AbsDiffEq" => 100,
+            "RelativeEq" => 110,
+            "HasIntegral" => 120,
+            _ => 200,
+        }
+    }
+
+    /// `f(false)`; if the body turns out to contain an operation that can panic, `f(true)` (Option mode)
+    fn with_opt_retry<T>(&self, f: impl Fn(bool) -> R<T>) -> R<(T, bool)> {
+        match f(false) {
+            Err(e) if e == loops::NEEDS_OPTION => match f(true) {
+                Err(e) if e == loops::NEEDS_OPTION => Err("internal: Option mode requested twice".into()),
+                r => r.map(|t| (t, true)),
+            },
+            r => r.map(|t| (t, false)),
+        }
+    }
+
+    /// A trait impl of a loop type.  Every method is translated on its own (one inventory line per
+    /// method); the instance is emitted only if every method is translated and none can panic.
+    fn translate_loop_trait_impl(&mut self, fname: &str, im: &ItemImpl, sub: &[String], trait_name: &str, qual: &str) {
+        let module = module_name(fname);
+        let self_m = mangle(&im.self_ty);
+        let inst_name = format!("inst_{trait_name}_{self_m}");
+        let lean_file = format!("{module}/Loops");
+        let all: Vec<&ImplItemFn> = im
+            .items
+            .iter()
+            .filter_map(|ii| if let ImplItem::Fn(f) = ii { Some(f) } else { None })
+            .filter(|f| !SKIPPED_METHODS.contains(&f.sig.ident.to_string().as_str()))
+            .collect();
+        let prep = self.trait_impl_header(im, trait_name).and_then(|h| Self::method_order(im).map(|mo| (h, mo)));
+        let (hdr, (methods, order)) = match prep {
+            Ok(x) => x,
+            Err(e) => {
+                for f in all {
+                    self.record(format!("{qual}::{}", f.sig.ident), fname, "unsupported", e.clone(), f.to_token_stream().to_string(), &lean_file, "");
+                }
+                return;
+            }
+        };
+        let mut sib = Siblings::default();
+        let mut defs: Vec<String> = vec![];
+        let mut fields = vec![String::new(); methods.len()];
+        let mut tagged: Vec<String> = vec![];
+        // per method: Ok(fallible) / Err(reason)
+        let mut results: Vec<Option<R<bool>>> = vec![None; methods.len()];
+        for &i in &order {
+            let f = methods[i];
+            let n = f.sig.ident.to_string();
+            let lean_method = Self::lean_method_name(&n);
+            let def_name = format!("{inst_name}.{lean_method}");
+            match self.with_opt_retry(|opt| self.translate_method(module, sub, &hdr, &inst_name, f, &sib, opt)) {
+                Ok((text, fallible)) => {
+                    defs.push(text);
+                    fields[i] = format!("  {lean_method} := {def_name}");
+                    sib.defs.insert(n.clone(), def_name.clone());
+                    if fallible {
+                        sib.opt.insert(n.clone());
+                    }
+                    tagged.push(def_name);
+                    results[i] = Some(Ok(fallible));
+                }
+                Err(e) => {
+                    sib.bad.insert(n.clone());
+                    results[i] = Some(Err(e));
+                }
+            }
+        }
+        let complete = results.iter().all(|r| matches!(r, Some(Ok(false))));
+        let mut text = defs.join("\n");
+        if complete {
+            let is_ref_impl = matches!(&*im.self_ty, Type::Reference(_));
+            let prio = if is_ref_impl { " (priority := low)" } else { "" };
+            text.push_str(&format!("\ninstance{prio} {inst_name} {} : {} where\n{}\n", hdr.binders_txt, hdr.class_app, fields.join("\n")));
+            tagged.insert(0, inst_name.clone());
+        } else if !defs.is_empty() {
+            let mut why = vec![];
+            for (i, r) in results.iter().enumerate() {
+                let n = methods[i].sig.ident.to_string();
+                match r {
+                    Some(Ok(true)) => why.push(format!("`{n}` can panic (Option-valued)")),
+                    Some(Err(_)) => why.push(format!("`{n}` is not translated")),
+                    _ => {}
+                }
+            }
+            text.push_str(&format!("\n-- no instance `{} : {}`: {}\n", inst_name, hdr.class_app, why.join(", ")));
+        }
+        if !defs.is_empty() {
+            let mut rank = Self::trait_rank(trait_name);
+            if matches!(&*im.self_ty, Type::Reference(_)) {
+                rank += 5;
+            }
+            self.push_chunk_ranked(&lean_file, rank, text);
+            self.tags.entry(lean_file.clone()).or_default().extend(tagged);
+        }
+        // inventory: one line per method, in source order
+        for (i, f) in methods.iter().enumerate() {
+            let n = f.sig.ident.to_string();
+            let ftoks = f.to_token_stream().to_string();
+            let q = format!("{qual}::{n}");
+            match results[i].clone() {
+                Some(Ok(_)) => {
+                    let ln = format!("{inst_name}.{}", Self::lean_method_name(&n));
+                    self.record(q, fname, "translated", String::new(), ftoks, &lean_file, &ln);
+                }
+                Some(Err(e)) => self.record(q, fname, "unsupported", e, ftoks, &lean_file, ""),
+                None => self.record(q, fname, "unsupported", "internal: method not visited".into(), ftoks, &lean_file, ""),
+            }
+        }
+    }
+
+    /// binders, type context and class application of a trait impl
+    fn trait_impl_header(&self, im: &ItemImpl, trait_name: &str) -> R<ImplHeader> {
         let (tyvars, insts, mut tcx) = self.generics_to_binders(&im.generics, Some(&im.self_ty))?;
         let self_lean = ty_to_lean(&im.self_ty, &tcx, &self.structs)?;
         tcx.self_ty = Some(self_lean.clone());
+        tcx.self_struct = Some(base_type_name(&im.self_ty));
         for ii in &im.items {
             if let ImplItem::Type(t) = ii {
                 let l = ty_to_lean(&t.ty, &tcx, &self.structs)?;
@@ -581,6 +903,12 @@ impl Translator {
             "Default" => format!("PDefault {self_lean}"),
             other => return Err(format!("unsupported trait {other}")),
         };
+        let binders_txt = Self::binder_text(&tyvars, &insts);
+        Ok(ImplHeader { tcx, self_lean, class_app, binders_txt })
+    }
+
+    /// the methods of an impl (without the skipped boiler-plate) and an order in which callees come first
+    fn method_order<'a>(im: &'a ItemImpl) -> R<(Vec<&'a ImplItemFn>, Vec<usize>)> {
         // Every method becomes a standalone def first, so that a method can call a sibling through
         // `self` (Rust allows it; a Lean instance cannot refer to itself).  Callees are emitted first.
         let mut methods: Vec<&ImplItemFn> = vec![];
@@ -610,67 +938,98 @@ impl Translator {
         if order.len() != methods.len() {
             return Err("mutually recursive methods".into());
         }
-        let binders_txt = Self::binder_text(&tyvars, &insts);
-        let mut siblings: BTreeMap<String, String> = BTreeMap::new();
+        Ok((methods, order))
+    }
+
+    fn lean_method_name(n: &str) -> String {
+        match n {
+            "mul_assign" => "mulAssign".to_string(),
+            "abs_diff_eq" => "absDiffEq".to_string(),
+            "relative_eq" => "relativeEq".to_string(),
+            other => lean_ident(other),
+        }
+    }
+
+    /// one method of a trait impl as a standalone def `<inst_name>.<method>`; `opt` = Option-valued
+    fn translate_method(&self, module: &str, sub: &[String], hdr: &ImplHeader, inst_name: &str, f: &ImplItemFn, sib: &Siblings, opt: bool) -> R<String> {
+        let lean_method = Self::lean_method_name(&f.sig.ident.to_string());
+        let mut cx = BodyCx::new(sib.defs.clone(), hdr.tcx.clone(), module, sub);
+        cx.opt_siblings = sib.opt.clone();
+        cx.bad_siblings = sib.bad.clone();
+        cx.opt_mode = opt;
+        let (binders, self_mut, mut_params) = self.params_to_lean(&f.sig, &mut cx)?;
+        if !mut_params.is_empty() {
+            return Err("&mut parameter in trait method".into());
+        }
+        let mut ret = if self_mut {
+            hdr.self_lean.clone()
+        } else {
+            match &f.sig.output {
+                ReturnType::Default => return Err("method without result".into()),
+                ReturnType::Type(_, t) => ty_to_lean(t, &cx.tcx, &self.structs)?,
+            }
+        };
+        if opt {
+            ret = format!("(Option {ret})");
+        }
+        let body = self.fn_body(&f.block, &mut cx, self_mut, &[])?;
+        let def_name = format!("{inst_name}.{lean_method}");
+        Ok(format!("def {def_name} {} {} : {ret} :=\n{}\n", hdr.binders_txt, binders.join(" "), indent(&body, 2)))
+    }
+
+    fn translate_trait_impl(&self, module: &str, sub: &[String], im: &ItemImpl, trait_name: &str, inst_name: &str) -> R<(String, Vec<String>)> {
+        let hdr = self.trait_impl_header(im, trait_name)?;
+        let (methods, order) = Self::method_order(im)?;
+        let mut sib = Siblings::default();
         let mut defs = vec![];
         let mut fields = vec![String::new(); methods.len()];
         let mut tagged = vec![inst_name.to_string()];
         for &i in &order {
             let f = methods[i];
             let n = f.sig.ident.to_string();
-            let lean_method = match n.as_str() {
-                "mul_assign" => "mulAssign".to_string(),
-                "abs_diff_eq" => "absDiffEq".to_string(),
-                "relative_eq" => "relativeEq".to_string(),
-                other => lean_ident(other),
-            };
-            let mut cx = BodyCx { siblings: siblings.clone(), tcx: tcx.clone(), scopes: vec![BTreeSet::new()], module: module.to_string(), submods: sub.to_vec() };
-            let (binders, self_mut, mut_params) = self.params_to_lean(&f.sig, &mut cx)?;
-            if !mut_params.is_empty() {
-                return Err("&mut parameter in trait method".into());
-            }
-            let ret = if self_mut {
-                self_lean.clone()
-            } else {
-                match &f.sig.output {
-                    ReturnType::Default => return Err("method without result".into()),
-                    ReturnType::Type(_, t) => ty_to_lean(t, &cx.tcx, &self.structs)?,
-                }
-            };
-            let body = self.fn_body(&f.block, &mut cx, self_mut, &[])?;
+            let lean_method = Self::lean_method_name(&n);
             let def_name = format!("{inst_name}.{lean_method}");
-            defs.push(format!("def {def_name} {binders_txt} {} : {ret} :=\n{}\n", binders.join(" "), indent(&body, 2)));
+            defs.push(self.translate_method(module, sub, &hdr, inst_name, f, &sib, false)?);
             fields[i] = format!("  {lean_method} := {def_name}");
-            siblings.insert(n, def_name.clone());
+            sib.defs.insert(n, def_name.clone());
             tagged.push(def_name);
         }
+        let (binders_txt, class_app) = (&hdr.binders_txt, &hdr.class_app);
         let is_ref_impl = matches!(&*im.self_ty, Type::Reference(_));
         let prio = if is_ref_impl { " (priority := low)" } else { "" };
         Ok((format!("{}\ninstance{prio} {inst_name} {binders_txt} : {class_app} where\n{}\n", defs.join("\n"), fields.join("\n")), tagged))
     }
 
-    fn translate_inherent_fn(&self, module: &str, im: &ItemImpl, f: &ImplItemFn) -> R<String> {
-        let (tyvars, insts, mut tcx) = self.generics_to_binders(&im.generics, Some(&im.self_ty))?;
+    fn translate_inherent_fn(&self, module: &str, im: &ItemImpl, f: &ImplItemFn, opt: bool) -> R<String> {
+        // the generics of the method are added to those of the impl
+        let g = merge_generics(&im.generics, &f.sig.generics);
+        let (tyvars, insts, mut tcx) = self.generics_to_binders(&g, Some(&im.self_ty))?;
         let self_lean = ty_to_lean(&im.self_ty, &tcx, &self.structs)?;
         tcx.self_ty = Some(self_lean);
+        tcx.self_struct = Some(base_type_name(&im.self_ty));
         let base = base_type_name(&im.self_ty);
-        let mut cx = BodyCx { siblings: BTreeMap::new(), tcx, scopes: vec![BTreeSet::new()], module: module.to_string(), submods: vec![] };
+        let mut cx = BodyCx::new(BTreeMap::new(), tcx, module, &[]);
+        cx.opt_mode = opt;
         let (binders, self_mut, mut_params) = self.params_to_lean(&f.sig, &mut cx)?;
         if !mut_params.is_empty() {
             return Err("&mut parameter".into());
         }
-        let ret = match &f.sig.output {
+        let mut ret = match &f.sig.output {
             ReturnType::Default => "Unit".to_string(),
             ReturnType::Type(_, t) => ty_to_lean(t, &cx.tcx, &self.structs)?,
         };
+        if opt {
+            ret = format!("(Option {ret})");
+        }
         let body = self.fn_body(&f.block, &mut cx, self_mut, &[])?;
         let b = Self::binder_text(&tyvars, &insts);
         Ok(format!("def {base}.{} {b} {} : {ret} :=\n{}\n", lean_ident(&f.sig.ident.to_string()), binders.join(" "), indent(&body, 2)))
     }
 
-    fn translate_free_fn(&self, module: &str, sub: &[String], sig: &Signature, block: &Block, _x: Option<()>) -> R<String> {
+    fn translate_free_fn(&self, module: &str, sub: &[String], sig: &Signature, block: &Block, opt: bool) -> R<String> {
         let (tyvars, insts, tcx) = self.generics_to_binders(&sig.generics, None)?;
-        let mut cx = BodyCx { siblings: BTreeMap::new(), tcx, scopes: vec![BTreeSet::new()], module: module.to_string(), submods: sub.to_vec() };
+        let mut cx = BodyCx::new(BTreeMap::new(), tcx, module, sub);
+        cx.opt_mode = opt;
         let (binders, _self_mut, mut_params) = self.params_to_lean(sig, &mut cx)?;
         let mut ret = match &sig.output {
             ReturnType::Default => "Unit".to_string(),
@@ -682,6 +1041,9 @@ impl Translator {
             parts.extend(mut_params.iter().map(|(_, t)| t.clone()));
             ret = format!("({})", parts.join(" × "));
         }
+        if opt {
+            ret = format!("(Option {ret})");
+        }
         let body = self.fn_body(block, &mut cx, false, &mut_params)?;
         let b = Self::binder_text(&tyvars, &insts);
         Ok(format!("def {} {b} {} : {ret} :=\n{}", lean_ident(&sig.ident.to_string()), binders.join(" "), indent(&body, 2)))
@@ -690,7 +1052,10 @@ impl Translator {
     // ---------------------------------------------------------------- bodies
 
     fn fn_body(&self, block: &Block, cx: &mut BodyCx, self_mut: bool, mut_params: &[(String, String)]) -> R<String> {
-        let (mut lines, tail) = self.block_lines(&block.stmts, cx, self_mut)?;
+        // in Option mode a plain result is produced by `expr_opt` (branches stay branches)
+        let tail_opt = cx.opt_mode && !self_mut && mut_params.is_empty();
+        cx.allow_return = !self_mut && mut_params.is_empty();
+        let (mut lines, tail) = self.block_lines(&block.stmts, cx, self_mut, tail_opt)?;
         let result = if self_mut {
             if let Some(t) = tail {
                 return Err(format!("value-producing tail `{t}` in a &mut self method"));
@@ -699,18 +1064,23 @@ impl Translator {
         } else {
             tail.ok_or("function body has no tail expression")?
         };
-        if mut_params.is_empty() {
-            lines.push(result);
+        let result = if mut_params.is_empty() {
+            result
         } else {
             let mut parts = vec![result];
             parts.extend(mut_params.iter().map(|(n, _)| n.clone()));
-            lines.push(format!("({})", parts.join(", ")));
+            format!("({})", parts.join(", "))
+        };
+        if cx.opt_mode && !tail_opt {
+            lines.push(format!("some ({result})"));
+        } else {
+            lines.push(result);
         }
         Ok(lines.join("\n"))
     }
 
     /// statements of a block → `let` lines, plus the tail expression if there is one
-    fn block_lines(&self, stmts: &[Stmt], cx: &mut BodyCx, unit_block: bool) -> R<(Vec<String>, Option<String>)> {
+    fn block_lines(&self, stmts: &[Stmt], cx: &mut BodyCx, unit_block: bool, tail_opt: bool) -> R<(Vec<String>, Option<String>)> {
         let mut lines = vec![];
         let mut tail = None;
         for (i, st) in stmts.iter().enumerate() {
@@ -726,15 +1096,22 @@ impl Translator {
                 Stmt::Item(Item::Const(c)) => {
                     let ty = ty_to_lean(&c.ty, &cx.tcx, &self.structs)?;
                     let e = self.expr(&c.expr, cx)?;
+                    self.flush(cx, &mut lines);
                     let n = c.ident.to_string();
                     cx.declare(&n);
                     lines.push(format!("let {} : {ty} := {e};", lean_ident(&n)));
                 }
                 Stmt::Item(_) => return Err("nested item".into()),
-                Stmt::Macro(m) => return Err(format!("macro {}", path_str(&m.mac.path))),
+                Stmt::Macro(m) => self.stmt_macro(m, cx, &mut lines)?,
                 Stmt::Expr(e, semi) => {
                     if last && semi.is_none() && !unit_block {
-                        tail = Some(self.expr(e, cx)?);
+                        if tail_opt {
+                            tail = Some(self.expr_opt(e, cx)?);
+                        } else {
+                            let t = self.expr(e, cx)?;
+                            self.flush(cx, &mut lines);
+                            tail = Some(t);
+                        }
                     } else if last && semi.is_none() && unit_block {
                         // `self.0 += v` without semicolon as the unit tail of a &mut self method
                         self.effect_stmt(e, cx, &mut lines)?;
@@ -753,9 +1130,14 @@ impl Translator {
                 if pi.by_ref.is_some() || pi.subpat.is_some() {
                     return Err("ref / @ pattern".into());
                 }
-                let e = self.expr(init, cx)?;
+                let sort = self.sort_of(init, cx);
+                let e = match strip_paren(init) {
+                    Expr::Block(b) if b.label.is_none() && cx.opt_mode => self.block_initialiser(&b.block, cx, lines)?,
+                    _ => self.expr(init, cx)?,
+                };
+                self.flush(cx, lines);
                 let n = pi.ident.to_string();
-                cx.declare(&n);
+                cx.declare_s(&n, sort);
                 lines.push(format!("let {} := {e};", lean_ident(&n)));
                 Ok(())
             }
@@ -763,8 +1145,10 @@ impl Translator {
                 let Pat::Ident(pi) = &*pt.pat else { return Err("typed non-identifier pattern".into()) };
                 let ty = ty_to_lean(&pt.ty, &cx.tcx, &self.structs)?;
                 let e = self.expr(init, cx)?;
+                self.flush(cx, lines);
                 let n = pi.ident.to_string();
-                cx.declare(&n);
+                let sort = self.sort_of_type(&pt.ty, &cx.tcx);
+                cx.declare_s(&n, sort);
                 lines.push(format!("let {} : {ty} := {e};", lean_ident(&n)));
                 Ok(())
             }
@@ -784,6 +1168,7 @@ impl Translator {
                 for e in &et.elems {
                     vals.push(self.expr(e, cx)?);
                 }
+                self.flush(cx, lines);
                 for (i, v) in vals.iter().enumerate() {
                     for n in &names[..i] {
                         if ident_occurs(v, &lean_ident(n)) {
@@ -797,6 +1182,7 @@ impl Translator {
                 }
                 Ok(())
             }
+            Pat::Struct(ps) => self.let_struct(ps, init, cx, lines),
             _ => Err("unsupported let pattern".into()),
         }
     }
@@ -828,11 +1214,7 @@ impl Translator {
 
     fn set_place(&self, place: &Expr, cx: &mut BodyCx, lines: &mut Vec<String>, newval: impl FnOnce(&str) -> String) -> R<()> {
         let (root, path) = self.parse_place(place)?;
-        match cx.scope_of(&root) {
-            None => return Err(format!("assignment to unknown variable {root}")),
-            Some(i) if i + 1 != cx.scopes.len() => return Err(format!("nested block mutates outer variable {root}")),
-            _ => {}
-        }
+        self.note_mutation(cx, &root)?;
         let root_l = lean_ident(&root);
         let mut cur = root_l.clone();
         let mut prefixes = vec![cur.clone()];
@@ -851,10 +1233,14 @@ impl Translator {
     }
 
     fn effect_stmt(&self, e: &Expr, cx: &mut BodyCx, lines: &mut Vec<String>) -> R<()> {
+        if self.loop_stmt(e, cx, lines)? {
+            return Ok(());
+        }
         match e {
             Expr::Paren(p) => self.effect_stmt(&p.expr, cx, lines),
             Expr::Assign(a) => {
                 let v = self.expr(&a.right, cx)?;
+                self.flush(cx, lines);
                 self.set_place(&a.left, cx, lines, |_| v)
             }
             Expr::Binary(b) => {
@@ -865,6 +1251,7 @@ impl Translator {
                     _ => return Err("expression statement without effect".into()),
                 };
                 let v = self.expr(&b.right, cx)?;
+                self.flush(cx, lines);
                 self.set_place(&b.left, cx, lines, |cur| format!("({cls} {cur} {v})"))
             }
             Expr::MethodCall(mc) => {
@@ -877,6 +1264,7 @@ impl Translator {
                     for a in &mc.args {
                         args.push(self.expr(a, cx)?);
                     }
+                    self.flush(cx, lines);
                     let f = match m.as_str() {
                         "translate" => "Translate.translate".to_string(),
                         "mul_assign" => "PMulAssign.mulAssign".to_string(),
@@ -925,7 +1313,7 @@ impl Translator {
             if deref_target(&b.left) != Some(x.clone()) {
                 return Err("for_each body does not update its element".into());
             }
-            cx.scopes.push(BTreeSet::new());
+            cx.scopes.push(BTreeMap::new());
             cx.declare(&x);
             let rhs = self.expr(&b.right, cx);
             cx.scopes.pop();
@@ -955,7 +1343,7 @@ impl Translator {
             if deref_target(&b.left) != Some(l.clone()) {
                 return Err("for_each body does not update its left element".into());
             }
-            cx.scopes.push(BTreeSet::new());
+            cx.scopes.push(BTreeMap::new());
             cx.declare(&l);
             cx.declare(&r);
             let rhs = self.expr(&b.right, cx);
@@ -981,6 +1369,10 @@ impl Translator {
                 if i.suffix() == "f64" {
                     return dec_literal(i.base10_digits());
                 }
+                if i.suffix().is_empty() || i.suffix() == "usize" {
+                    // only reachable in `usize` positions: a float position needs a float literal in Rust
+                    return Ok(i.base10_digits().to_string());
+                }
                 Err("integer literal in value position".into())
             }
             Lit::Bool(b) => Ok(if b.value { "true".into() } else { "false".into() }),
@@ -1001,6 +1393,7 @@ impl Translator {
                 let segs: Vec<String> = p.path.segments.iter().map(|s| s.ident.to_string()).collect();
                 if segs.len() == 1 {
                     if cx.scope_of(&segs[0]).is_some() {
+                        cx.reads.push(segs[0].clone());
                         return Ok(lean_ident(&segs[0]));
                     }
                     return Err(format!("unknown identifier {}", segs[0]));
@@ -1020,8 +1413,15 @@ impl Translator {
                 }
             }
             Expr::Binary(b) => {
+                if let Some(r) = self.int_binary(b, cx)? {
+                    return Ok(r);
+                }
                 let l = self.expr(&b.left, cx)?;
+                let np = cx.pending.len();
                 let r = self.expr(&b.right, cx)?;
+                if matches!(b.op, BinOp::And(_) | BinOp::Or(_)) && cx.pending.len() != np {
+                    return Err("effect or panic in the right operand of a short-circuit operator".into());
+                }
                 Ok(match b.op {
                     BinOp::Add(_) => format!("(PAdd.add {l} {r})"),
                     BinOp::Sub(_) => format!("(PSub.sub {l} {r})"),
@@ -1046,6 +1446,9 @@ impl Translator {
                 }
             }
             Expr::Index(ix) => {
+                if let Some(r) = self.list_index(ix, cx)? {
+                    return Ok(r);
+                }
                 let base = self.expr(&ix.expr, cx)?;
                 let n = array_len(&ix.index).ok_or("non-constant index (may panic)")?;
                 Ok(format!("{base}.a{n}"))
@@ -1091,7 +1494,7 @@ impl Translator {
                 let c = self.expr(&i.cond, cx)?;
                 let t = self.block_expr(&i.then_branch, cx)?;
                 let Some((_, eb)) = &i.else_branch else { return Err("if without else".into()) };
-                let el = self.expr(eb, cx)?;
+                let el = self.expr_local(eb, cx)?;
                 Ok(format!("(if {c} then {t} else {el})"))
             }
             Expr::Block(b) => {
@@ -1103,7 +1506,7 @@ impl Translator {
             Expr::Cast(_) => Err("cast".into()),
             Expr::Macro(m) => Err(format!("macro {}", path_str(&m.mac.path))),
             Expr::Closure(_) => Err("closure".into()),
-            Expr::Match(_) => Err("match".into()),
+            Expr::Match(m) => self.match_expr(m, cx),
             Expr::Loop(_) | Expr::While(_) | Expr::ForLoop(_) => Err("loop".into()),
             Expr::Return(_) => Err("return".into()),
             Expr::Try(_) => Err("? operator".into()),
@@ -1113,10 +1516,18 @@ impl Translator {
     }
 
     fn block_expr(&self, b: &Block, cx: &mut BodyCx) -> R<String> {
-        cx.scopes.push(BTreeSet::new());
-        let r = self.block_lines(&b.stmts, cx, false);
+        cx.scopes.push(BTreeMap::new());
+        let nb = cx.n_binds;
+        let (sp, sm, sr) = (std::mem::take(&mut cx.pending), std::mem::take(&mut cx.mutated), std::mem::take(&mut cx.reads));
+        let r = self.block_lines(&b.stmts, cx, false, false);
+        cx.pending = sp;
+        cx.mutated = sm;
+        cx.reads = sr;
         cx.scopes.pop();
         let (lines, tail) = r?;
+        if cx.n_binds != nb {
+            return Err(loops::NESTED_PANIC.into());
+        }
         let tail = tail.ok_or("block without value")?;
         if lines.is_empty() {
             Ok(tail)
@@ -1126,6 +1537,9 @@ impl Translator {
     }
 
     fn call(&self, c: &ExprCall, cx: &mut BodyCx) -> R<String> {
+        if let Some(r) = self.loop_call(c, cx)? {
+            return Ok(r);
+        }
         let Expr::Path(p) = &*c.func else { return Err("call of non-path".into()) };
         let segs: Vec<String> = p.path.segments.iter().map(|s| s.ident.to_string()).collect();
         let mut args = vec![];
@@ -1189,6 +1603,9 @@ impl Translator {
     }
 
     fn method_call(&self, mc: &ExprMethodCall, cx: &mut BodyCx) -> R<String> {
+        if let Some(r) = self.loop_method(mc, cx)? {
+            return Ok(r);
+        }
         let m = mc.method.to_string();
         if self.mutating.contains(&m) {
             return Err(format!("mutating method `{m}` in value position"));
@@ -1301,6 +1718,16 @@ impl Translator {
             "Piecewise/Calculus" => vec!["PP.Model.Piecewise.Evaluate"],
             "Spline/Fns" => vec!["PP.Model.Types"],
             "Linear/Fns" => vec!["PP.Model.Poly.Calculus"],
+            "Poly/Loops" => vec!["PP.Core.Iter", "PP.Model.Types"],
+            "Piecewise/Loops" => vec![
+                "PP.Core.Iter",
+                "PP.Model.Piecewise.Evaluate",
+                "PP.Model.Piecewise.Calculus",
+                "PP.Model.Piecewise.Ops",
+                "PP.Model.Piecewise.Approx",
+            ],
+            "Linear/Loops" => vec!["PP.Core.Iter", "PP.Model.Linear.Fns"],
+            "Spline/Loops" => vec!["PP.Core.Iter", "PP.Model.Spline.Fns"],
             _ => vec!["PP.Model.Types"],
         }
     }
@@ -1542,6 +1969,8 @@ impl Translator {
             "Poly/Evaluate", "Poly/Calculus", "Poly/Ops", "Poly/Approx", "Poly/Fns", "LogPoly/Evaluate", "LogPoly/Calculus",
             "LogPoly/Ops", "LogPoly/Approx", "Piecewise/Evaluate", "Piecewise/Calculus", "Piecewise/Ops", "Piecewise/Approx",
             "Spline/Fns", "Linear/Fns",
+            // loop subset
+            "Poly/Loops", "Piecewise/Loops", "Linear/Loops", "Spline/Loops",
         ];
         let mut names: BTreeSet<String> = all_files.iter().map(|s| s.to_string()).collect();
         names.extend(self.chunks.keys().cloned());
@@ -1568,7 +1997,7 @@ impl Translator {
             a.push_str("import PP.Core.Attr\n");
             a.push_str(&format!("import PP.Model.{}\n", f.replace('/', ".")));
             for i in Self::imports_for(&f) {
-                if i != "PP.Model.Types" {
+                if i != "PP.Model.Types" && i.starts_with("PP.Model.") {
                     a.push_str(&format!("import {i}Attr\n"));
                 }
             }
@@ -1628,7 +2057,7 @@ fn strip_paren(e: &Expr) -> &Expr {
 }
 
 fn ident_occurs(hay: &str, id: &str) -> bool {
-    hay.split(|c: char| !(c.is_alphanumeric() || c == '_' || c == '«' || c == '»')).any(|t| t == id)
+    hay.split(|c: char| !(c.is_alphanumeric() || c == '_' || c == '\'' || c == '«' || c == '»')).any(|t| t == id)
 }
 
 fn indent(s: &str, n: usize) -> String {
